@@ -88,18 +88,34 @@ def _enough_writers(fnorm):
     return gate
 
 
+def _sweep(idx, name):
+    """Every call ``X.name(..)`` and every other load of an attribute ``X.name`` in the package, *including
+    lambda bodies* (the engine's call-graph sweeps do not enter lambdas): (fn, node, receiver expr, 'call'|'ref')."""
+    cache = idx.__dict__.setdefault("_lambda_sweep_cache", {})
+    out = []
+    for fn in idx.funcs.values():
+        if name not in fn.module.source:
+            continue
+        ent = cache.get(fn.qual)
+        if ent is None:
+            nodes = [n for n in func_own_nodes(fn, into_lambda=True) if isinstance(n, (ast.Call, ast.Attribute))]
+            callfuncs = {id(n.func) for n in nodes if isinstance(n, ast.Call)}
+            ent = cache[fn.qual] = (nodes, callfuncs)
+        nodes, callfuncs = ent
+        for n in nodes:
+            if isinstance(n, ast.Call):
+                if isinstance(n.func, ast.Attribute) and n.func.attr == name:
+                    out.append((fn, n, n.func.value, "call"))
+            elif n.attr == name and isinstance(n.ctx, ast.Load) and id(n) not in callfuncs:
+                out.append((fn, n, n.value, "ref"))
+    return out
+
+
 def _method_uses(idx, cg, tail, owner, foreign_prefix="allmydata.mutable"):
     """Calls and bare attribute references ``X.tail`` that can denote `owner`'s method: receiver ``self``
-    inside the owner class (or a subclass), or any non-self receiver inside the mutable package."""
-    cand = []
-    for cs in cg.calls_named(tail):
-        if isinstance(cs.call.func, ast.Attribute):
-            cand.append((cs.fn, cs.call, cs.call.func.value, "call"))
-    for (fn, nd) in cg.refs_named(tail):
-        if isinstance(nd, ast.Attribute):
-            cand.append((fn, nd, nd.value, "ref"))
+    inside the owner class (or a subclass), or any non-self receiver inside `foreign_prefix`."""
     out = []
-    for (fn, node, recv, kind) in cand:
+    for (fn, node, recv, kind) in _sweep(idx, tail):
         if isinstance(recv, ast.Name) and recv.id == "self":
             if fn.cls is not None and owner in fn.cls.mro():
                 out.append((fn, node, kind))
@@ -456,7 +472,8 @@ def run(ctx: Context):
         allowed_fire = {idx.func(PUB + "._done").qual, idx.func(PUB + "._failure").qual}
         creators = {idx.func(PUB + ".publish").qual, idx.func(PUB + ".update").qual}
         nrefs = 0
-        for (f, nd) in cg.refs_named("done_deferred") + cg.attr_stores("done_deferred"):
+        for (f, nd) in [(f, nd) for (f, nd, _r, k) in _sweep(idx, "done_deferred") if k == "ref"] + \
+                cg.attr_stores("done_deferred"):
             if f.cls is not pub:
                 continue
             nrefs += 1
